@@ -8,6 +8,7 @@ import petl as etl
 from hypothesis import strategies as st
 
 from pv import gen, codec, catgen
+from pv import scale
 from pv.core import Sub, Fail, exc_fail, two_iterators
 from pv.order import ref_cmp
 from pv.ref import base as R
@@ -59,7 +60,8 @@ def sel_case(draw, tier):
     if contains:
         cell = st.one_of(st.lists(st.sampled_from(p), max_size=3), st.sampled_from(["", "xay", "b"]), st.lists(st.sampled_from(p), max_size=2).map(tuple))
     tbl = draw(gen.table(hdr, [cell] * nf, max_rows=7 if tier == "quick" else 14, ragged=not contains and draw(st.booleans())))
-    c = {"selector": sel, "table": tbl, "field": draw(st.one_of(st.sampled_from(hdr), st.integers(0, nf - 1))),
+    c = {"blowup": draw(scale.blowup(wide=False)),
+         "selector": sel, "table": tbl, "field": draw(st.one_of(st.sampled_from(hdr), st.integers(0, nf - 1))),
          # container form of the input; "records": the data rows are petl Record objects (as records() or an upstream
          # selectusingcontext / convert(where=) delivers them), built with the default missing=None
          "form": draw(st.sampled_from(["lists", "lists", "lists", "records", "records"] + catgen.FORMS)),
@@ -95,6 +97,9 @@ def _eq(a, b):
 
 def check_sel(case, ctx):
     sel, tbl, field, comp = case["selector"], case["table"], case["field"], case["complement"]
+    if case.get("blowup"):
+        tbl = scale.apply(tbl, case["blowup"])
+        scale.label(ctx, case["blowup"])
     x, y = case["value"], case["value2"]
     hdr = tbl[0]
     fi = field if isinstance(field, int) else hdr.index(field)
@@ -220,14 +225,15 @@ def part_case(draw, tier):
     if kind in ("search-fields", "facet-compound"):
         nf = draw(st.sampled_from([2, 3]))
         hdr = ["a", "b", "c"][:nf]
-    ragged = kind not in ("search-field", "search-fields", "facet", "facet-compound") and draw(st.booleans())
+    ragged = kind not in ("search-field", "search-fields", "facet-compound") and draw(st.booleans())
     rkw = {}
     if kind == "search" and draw(st.booleans()):
         # whole-row search: "anywhere in the row" includes cells beyond the header - make long rows common
         ragged, rkw = True, {"ragged_odds": 2, "ragged_min": nf}
     tbl = draw(gen.table(hdr, [cell] * nf, max_rows=7 if tier == "quick" else 14, ragged=ragged,
                          extra=st.sampled_from(["a", "xa", "7", "x", None, "A"]), **rkw))   # surplus cells the patterns can match
-    return {"kind": kind, "table": tbl, "field": draw(st.sampled_from(hdr)), "pattern": draw(st.sampled_from(PATTERNS)),
+    return {"blowup": draw(scale.blowup(wide=False)), "manykeys": draw(st.booleans()),
+            "kind": kind, "table": tbl, "field": draw(st.sampled_from(hdr)), "pattern": draw(st.sampled_from(PATTERNS)),
             "fields": draw(st.permutations(hdr))[:2],
             "n": draw(st.integers(0, nf + 1)), "flags": draw(st.sampled_from([0, re.I]))}
 
@@ -248,6 +254,16 @@ def _is_partition(rows, a, b):
 
 def check_part(case, ctx):
     kind, tbl, field = case["kind"], case["table"], case["field"]
+    if case.get("blowup"):
+        tbl = scale.apply(tbl, case["blowup"])
+        scale.label(ctx, case["blowup"])
+        if case.get("manykeys") and kind in ("facet", "facet-compound"):
+            # many distinct key values (more than any per-key structure is likely to be sized for)
+            k = list(tbl[0]).index(field)
+            for i, r in enumerate(tbl[1:]):
+                if len(r) > k:
+                    r[k] = i % 70
+            ctx.label("many-distinct-keys")
     hdr = tuple(tbl[0])
     rows = [tuple(r) for r in tbl[1:]]
     T = catgen.shape(codec.snapshot(tbl), case.get("form", "lists"))
@@ -299,7 +315,7 @@ def check_part(case, ctx):
                 kof = lambda r: tuple(r[i] for i in fis)  # noqa
                 f = etl.facet(T, tuple(case["fields"]))
             else:
-                kof = lambda r: r[fi]  # noqa
+                kof = lambda r: R.cell(r, fi)  # noqa   (a row too short for the key field has the key None)
                 f = etl.facet(T, field)
             keys = []
             for r in rows:
@@ -349,6 +365,16 @@ def slice_cases(tier):
         yield {"fn": "rowslice0", "n": n, "args": []}
         yield {"fn": "head-default", "n": n, "args": []}
         yield {"fn": "tail-default", "n": n, "args": []}
+    # at scale: positions around 1000 / 1024 / 2048 on tables of that size
+    big = [999, 1000, 1001, 1024, 1025, 2048]
+    for n in (1001, 1500, 2049):
+        for k in big + [n - 1, n, n + 1]:
+            yield {"fn": "head", "n": n, "args": [k]}
+            yield {"fn": "tail", "n": n, "args": [k]}
+            yield {"fn": "skip", "n": n, "args": [k]}
+            yield {"fn": "rowslice1", "n": n, "args": [k]}
+            yield {"fn": "rowslice2", "n": n, "args": [k - 999 if k > 999 else 0, k]}
+            yield {"fn": "rowslice3", "n": n, "args": [1, k, 7]}
 
 
 class _Diverged(Exception):
@@ -390,7 +416,7 @@ def check_slice(case, ctx):
             got = _rows3(etl.skip(tbl, args[0]))
             ctx.nontrivial(n >= 2 and 0 < len(exp_all) < len(allrows))
             if got != exp_all:
-                return Fail("skip/rows", "skip(%d) on %d rows gave %r expected %r" % (args[0], n, got, exp_all))
+                return Fail("skip/rows", "skip(%d) on %d rows gave %.300r expected %.300r" % (args[0], n, got, exp_all))
             return None
     except _Diverged as ex:
         return Fail(fn.split("-")[0].rstrip("0123") + "/iterators-diverge", str(ex))
@@ -399,6 +425,9 @@ def check_slice(case, ctx):
     ctx.label("fn:" + fn)
     ctx.nontrivial(n >= 2 and 0 < len(exp) < n)
     if got[:1] != [hdr] or got[1:] != exp:
+        if n > 100:
+            return Fail(fn.split("-")[0].rstrip("0123") + "/rows", "%s%r on %d rows gave %d rows starting %r, expected %d starting %r"
+                        % (fn, tuple(args), n, len(got) - 1, got[1:3], len(exp), exp[:2]))
         return Fail(fn.split("-")[0].rstrip("0123") + "/rows", "%s%r on %d rows gave %r expected %r" % (fn, tuple(args), n, got[1:], exp))
     return None
 
